@@ -216,6 +216,10 @@ pub struct Sched {
     pub panicked: Option<String>,
     /// number of steps performed so far (readable from inside tasks: logical time of a history)
     pub step_counter: Arc<std::sync::atomic::AtomicU64>,
+    /// When set, "nothing enabled but clients unfinished" is resolved by letting (virtual) time
+    /// pass — time always advances in reality — up to this many forced steps; only then is it a
+    /// deadlock. Forced advances are not choices and cost nothing.
+    pub forced_advances_left: u32,
 }
 
 impl Default for Sched {
@@ -235,6 +239,7 @@ impl Sched {
             stamp_src: None,
             panicked: None,
             step_counter: Arc::new(std::sync::atomic::AtomicU64::new(0)),
+            forced_advances_left: 0,
         }
     }
 
@@ -350,6 +355,14 @@ impl Sched {
                 return Err(p.clone());
             }
             let en = self.enabled();
+            if en.is_empty() && self.forced_advances_left > 0 {
+                self.forced_advances_left -= 1;
+                self.step_counter.fetch_add(1, Ordering::SeqCst);
+                self.trace.push(ADVANCE);
+                self.last = Some(ADVANCE);
+                tokio::time::advance(self.advance_by).await;
+                continue;
+            }
             if en.is_empty() {
                 let stuck: Vec<&str> = self
                     .tasks
